@@ -92,6 +92,29 @@ def F3b():
     return (exc is None and r == []), f"access records of the request after the connection was closed and the application returned: {r}"
 
 
+def F3f():
+    """a WebSocket application that has been sent websocket.connect and has not answered yet; the
+    client sends a frame before the handshake is accepted (answered 400), then the connection goes
+    away: the application is never sent websocket.disconnect"""
+    got = []
+
+    async def app(scope, receive, send):
+        while True:
+            m = await receive()
+            got.append(m["type"])
+            if m["type"] == "websocket.disconnect":
+                return
+
+    async def sc(h):
+        await h.feed(UPGRADE)
+        await h.feed(b"\x81\x85\x00\x00\x00\x00hello")  # a frame before any acceptance
+        await h.proto.handle(Closed())
+        await h.settle()
+        return list(got)
+    h, r, exc = run_h1(app, sc, timeout=3)
+    return (r is not None and "websocket.disconnect" not in r), f"messages the application received: {r}"
+
+
 def F11b():
     """the application answers the handshake with the HTTP-response extension (still sending the
     body) and the client sends data meanwhile: a second response head (400) is attempted"""
